@@ -281,6 +281,10 @@ func main() {
 		[]variant{{"max-alarms=1", optrun.Opts{"max-alarms": "1"}, 1}, {"max-alarms=2", optrun.Opts{"max-alarms": "2"}, 2},
 			{"max-alarms=3", optrun.Opts{"max-alarms": "3"}, 3}, {"max-alarms=4+on-demand", optrun.Opts{"max-alarms": "4", "summarize-on-demand": "true"}, 4},
 			{"max-alarms=6", optrun.Opts{"max-alarms": "6"}, 6}, {"max-alarms=50", optrun.Opts{"max-alarms": "50"}, 50},
+			// limits that do not fit in 32 bits (the counter comparison must not truncate them)
+			{"max-alarms=2147483648", optrun.Opts{"max-alarms": "2147483648"}, 2147483648},
+			{"max-alarms=4294967298", optrun.Opts{"max-alarms": "4294967298"}, 4294967298},
+			{"max-alarms=2147483650+on-demand", optrun.Opts{"max-alarms": "2147483650", "summarize-on-demand": "true"}, 2147483650},
 			{"on-demand+report-summaries", optrun.Opts{"summarize-on-demand": "true", "report-summaries": "true", "reports-dir": q(rdir)}, 0}}, false)
 
 	// ---- generated programs
